@@ -54,6 +54,21 @@ pub struct InvalidTargetTypeError {
 }
 
 #[derive(Debug, thiserror::Error, miette::Diagnostic, PartialEq, Eq, Clone)]
+#[error("{name} expects {expected}, got {got}")]
+#[diagnostic(code(tx3::invalid_argument_count))]
+pub struct InvalidArgumentCountError {
+    pub name: String,
+    pub expected: &'static str,
+    pub got: usize,
+
+    #[source_code]
+    src: Option<String>,
+
+    #[label]
+    span: Span,
+}
+
+#[derive(Debug, thiserror::Error, miette::Diagnostic, PartialEq, Eq, Clone)]
 #[error("optional output ({name}) cannot have a datum")]
 #[diagnostic(code(tx3::optional_output_datum))]
 pub struct OptionalOutputError {
@@ -126,6 +141,10 @@ pub enum Error {
     #[error(transparent)]
     #[diagnostic(transparent)]
     InvalidOptionalOutput(#[from] OptionalOutputError),
+
+    #[error(transparent)]
+    #[diagnostic(transparent)]
+    InvalidArgumentCount(#[from] InvalidArgumentCountError),
 }
 
 impl Error {
@@ -137,6 +156,7 @@ impl Error {
             Self::MetadataSizeLimitExceeded(x) => &x.span,
             Self::MetadataInvalidKeyType(x) => &x.span,
             Self::InvalidOptionalOutput(x) => &x.span,
+            Self::InvalidArgumentCount(x) => &x.span,
             _ => &Span::DUMMY,
         }
     }
@@ -758,7 +778,35 @@ impl Analyzable for crate::ast::FnCall {
             args_report = args_report + arg.analyze(parent.clone());
         }
 
-        callee + args_report
+        // only built-in functions and assets can be called, each with the arguments it reads
+        let expected = match &self.callee.symbol {
+            Some(Symbol::Function(name)) if name == "tip_slot" => Some((0, "0 arguments")),
+            Some(Symbol::Function(_)) => Some((1, "1 argument")),
+            Some(Symbol::AssetDef(_)) => (self.args.is_empty()).then_some((1, "an amount")),
+            Some(other) => {
+                bail_report!(Error::invalid_symbol(
+                    "function or asset",
+                    other,
+                    &self.callee
+                ));
+            }
+            None => None,
+        };
+
+        let arity = match expected {
+            Some((count, expected)) if self.args.len() != count => {
+                AnalyzeReport::from(Error::InvalidArgumentCount(InvalidArgumentCountError {
+                    name: self.callee.value.clone(),
+                    expected,
+                    got: self.args.len(),
+                    src: None,
+                    span: self.span.clone(),
+                }))
+            }
+            _ => AnalyzeReport::default(),
+        };
+
+        callee + args_report + arity
     }
 
     fn is_resolved(&self) -> bool {
